@@ -144,7 +144,24 @@ std::string rnd_name(Rng& r) {
 
 bytes build_frame(Rng& r, int kind, int* link) {
     *link = 0;      // 0 = EthernetII, 1 = RadioTap, 2 = Dot3, 3 = bare IP, 4 = bare IPv6
-    switch (kind % 10) {
+    switch (kind % 12) {
+    case 10: {  // unknown ether type / unknown IP protocol: the parser consults the (empty) user allocator registries
+        EthernetII eth = EthernetII(rnd_hw(r), rnd_hw(r)) / RawPDU(r.blob(r.range(1, 40)));
+        eth.payload_type(uint16_t(0x88b5 + r.below(2)));
+        return eth.serialize();
+    }
+    case 11: {
+        IP ip(rnd_v4(r), rnd_v4(r));
+        ip.protocol(uint8_t(253 + r.below(2)));
+        if (r.chance(1, 2)) {
+            EthernetII eth = EthernetII(rnd_hw(r), rnd_hw(r)) / ip / RawPDU(r.blob(r.range(1, 40)));
+            return eth.serialize();
+        }
+        IPv6 v6(rnd_v6(r), rnd_v6(r));
+        v6.next_header(uint8_t(253 + r.below(2)));
+        EthernetII eth = EthernetII(rnd_hw(r), rnd_hw(r)) / v6 / RawPDU(r.blob(r.range(1, 40)));
+        return eth.serialize();
+    }
     case 0: {   // Ethernet / IP / TCP with options / payload
         TCP tcp(uint16_t(r.next()), uint16_t(r.next()));
         tcp.seq(uint32_t(r.next())); tcp.ack_seq(uint32_t(r.next())); tcp.window(uint16_t(r.next()));
@@ -264,7 +281,7 @@ std::string wl_parse(uint32_t iters, uint64_t seed, Yielder& y) {
     for (uint32_t it = 0; it < iters; ++it) {
         int link;
         bytes b;
-        try { b = build_frame(r, int(r.below(10)), &link); }
+        try { b = build_frame(r, int(r.below(12)), &link); }
         catch (const std::exception& e) { d.str("build:" + vh::exc_name(e)); y.maybe(); continue; }
         if (r.chance(1, 3) && b.size() > 30) {           // mutate the payload end of the frame, or truncate it
             if (r.chance(1, 2)) b[b.size() - 1 - r.below(8)] ^= uint8_t(1 << r.below(8));
@@ -323,7 +340,7 @@ std::string wl_copy(uint32_t iters, uint64_t seed, Yielder& y) {
     for (uint32_t it = 0; it < iters; ++it) {
         try {
             int link;
-            bytes b = build_frame(r, int(r.below(10)), &link);
+            bytes b = build_frame(r, int(r.below(12)), &link);
             PDU* p = parse_link(link, b);
             PDU* c = p->clone();
             digest_chain(d, *c);
